@@ -8,6 +8,7 @@
 //   - two imported packages with the same package name (import alias collision);
 //   - types that can only be inferred in a second pass (a derive call fed by another derive call);
 //   - a package that imports another generated package;
+//   - a dependency whose in-package _test.go file adds Equal / Compare / Hash methods, and a package embedding its types;
 //   - one package that goderive must reject (bad), to observe what a failing sibling does to the others.
 //
 // It only writes sources; vlib/runs.py runs the real goderive on fresh copies (repeated runs, invocation
@@ -191,6 +192,42 @@ func H(xs []string) []string {
 }
 `
 
+// a call that needs a second generation round, preceded in the same file by several first-round calls of the
+// same plugin (the order in which one plugin's functions are registered must not depend on whether an old
+// derived.gen.go already resolves them: run from scratch vs. rerun over the own output)
+const pass3 = `package pass3
+
+type Inventory struct {
+	Owner string
+	Rev   int
+	Tags  []float64
+	Stock map[string]int
+}
+
+func SameShape(a, b *Inventory) bool {
+	return deriveEqualOwner(&a.Owner, &b.Owner) &&
+		deriveEqualRev(a.Rev, b.Rev) &&
+		deriveEqualTags(a.Tags, b.Tags) &&
+		deriveEqualArticles(deriveSort(deriveKeys(a.Stock)), deriveSort(deriveKeys(b.Stock)))
+}
+
+func Order(a, b *Inventory) int {
+	if c := deriveCompareRev(a.Rev, b.Rev); c != 0 {
+		return c
+	}
+	if c := deriveCompareOwner(&a.Owner, &b.Owner); c != 0 {
+		return c
+	}
+	return deriveCompareCounts(deriveSortInts(deriveFmap(count, deriveKeys(a.Stock))), deriveSortInts(deriveFmap(count, deriveKeys(b.Stock))))
+}
+
+func count(s string) int { return len(s) }
+
+func Late(a, b *Inventory) bool {
+	return deriveContains(deriveUnique(deriveSort(deriveKeys(a.Stock))), b.Owner) && deriveEqualWhole(a, b)
+}
+`
+
 const user = `package user
 
 import "ambig/amb2"
@@ -208,6 +245,46 @@ func Cmp(a, b *W) int  { return deriveCompare(a, b) }
 func Hash(a *W) uint64 { return deriveHash(a) }
 func Clone(a *W) *W    { return deriveClone(a) }
 func Str(a *W) string  { return deriveGoString(a) }
+`
+
+// a dependency whose IN-PACKAGE test file adds methods: goderive loads packages named on the command line
+// together with their _test.go files, and other named packages that import them see that augmented version
+const dep = `package dep
+
+type T struct {
+	N int
+	S []string
+}
+
+type U struct {
+	M map[string]int
+}
+`
+
+const depTest = `package dep
+
+func (t *T) Equal(o *T) bool { return t.N == o.N }
+
+func (t *T) Compare(o *T) int { return t.N - o.N }
+
+func (u *U) Hash() uint64 { return uint64(len(u.M)) }
+
+type OnlyInTests struct{ X int }
+`
+
+const usesdep = `package usesdep
+
+import "ambig/dep"
+
+type W struct {
+	*dep.T
+	U *dep.U
+	X int
+}
+
+func Eq(a, b *W) bool  { return deriveEqual(a, b) }
+func Cmp(a, b *W) int  { return deriveCompare(a, b) }
+func Hash(a *W) uint64 { return deriveHash(a) }
 `
 
 const bad = `package bad
@@ -389,7 +466,11 @@ func main() {
 	add("amb2", "assignable-many-helpers", "ok", amb2)
 	add("twoimp", "same-name-imports", "ok", twoimp)
 	add("pass2", "second-pass", "ok", pass2)
+	add("pass3", "second-pass-after-first-round-calls", "ok", pass3)
 	add("user", "imports-generated-package", "ok", user)
+	add("dep", "dependency-with-test-only-methods", "ok", dep)
+	write("dep/export_test.go", depTest)
+	add("usesdep", "uses-test-augmented-dependency", "ok", usesdep)
 	add("bad", "rejected", "fail", bad)
 	n := 6
 	if *thorough {
